@@ -8,6 +8,9 @@ import CkptVerif.Proofs.HRevolveNoDisk
 import CkptVerif.Proofs.DiskOneReadLB
 import CkptVerif.Proofs.HRevolveLB
 import CkptVerif.Proofs.HRevolveLBLifo
+import CkptVerif.Proofs.HRevolveLBFull
+import CkptVerif.Proofs.HRevolveLBFullLifo
+import CkptVerif.Proofs.HRevolveLBFullGameMain
 /-!
 # C07 — the H-Revolve family achieves its cost optimum for any (integer) cost vector
 
@@ -84,4 +87,15 @@ alias C07_hrevolve_optimal_lifo := LB7.C07_hrevolve_optimal_in_lifo
 alias C07_hrevolve_lifo_attains := LB7.hrevolve_lifo_attains
 /-- what is missing: if every accepted stream were LIFO (or could be made LIFO at no cost) the full statement follows -/
 alias C07_hrevolve_of_lifo := LB7.hrevolveOptimalT_of_lifo
+end Ckpt
+
+namespace Ckpt
+/-- the H-Revolve lower bound under the weaker hypothesis `Lifo'` (loads take the most recently stored checkpoint that is
+still alive; any stored checkpoint may be deleted at any time; no transfers into RAM/DISK) -/
+alias C07_hrevolve_lowerBound_partial2 := LB7.hrevolveOptimalT_partial2
+alias C07_lifo'_of_lifo := LB7.lifo'_of_lifo
+/-- every accepted stream is a play of a six-move pebble game of the same forward cost -/
+alias C07_game_of_accepted := LB7.game_of_accepted
+/-- the full statement follows from the pebble-game lower bound `GameLB` (not proved) -/
+alias C07_hrevolve_of_gameLB := LB7.hrevolveOptimalT_of_gameLB
 end Ckpt
